@@ -35,11 +35,12 @@ type cand struct {
 
 	// context for value domains; nil = not available in this state
 	hUnconfirmedSend, hAlreadyReceived, hOtherRecipient, hSecondPending, hReceiveBlock *types.Hash
-	hGrandPredecessor, hOtherFrontier, hConfirmedFrontier                               *types.Hash
-	balance                                                                             *big.Int
-	predMA                                                                              uint64 // height acknowledged by the predecessor (0 = n/a)
-	moms                                                                                map[uint64]types.Hash
-	frontier                                                                            uint64
+	hAlreadyReceivedZero                                                               *types.Hash // an already received send of amount zero
+	hGrandPredecessor, hOtherFrontier, hConfirmedFrontier                              *types.Hash
+	balance                                                                            *big.Int
+	predMA                                                                             uint64 // height acknowledged by the predecessor (0 = n/a)
+	moms                                                                               map[uint64]types.Hash
+	frontier                                                                           uint64
 }
 
 type mutation struct {
@@ -222,7 +223,7 @@ func (cd *cand) domain() []mutation {
 	for _, x := range []struct {
 		n string
 		h *types.Hash
-	}{{"unconfirmed-send", cd.hUnconfirmedSend}, {"already-received-send", cd.hAlreadyReceived}, {"send-to-someone-else", cd.hOtherRecipient},
+	}{{"unconfirmed-send", cd.hUnconfirmedSend}, {"already-received-send", cd.hAlreadyReceived}, {"already-received-zero-amount-send", cd.hAlreadyReceivedZero}, {"send-to-someone-else", cd.hOtherRecipient},
 		{"second-pending-send", cd.hSecondPending}, {"a-receive-block", cd.hReceiveBlock}} {
 		x := x
 		if x.h == nil || *x.h == v.FromBlockHash {
